@@ -25,7 +25,7 @@ class _Proc(Contract):
         return False
 
 
-EXITCODES = ("none", "zero", "int", "str", "false", "true")
+EXITCODES = ("none", "zero", "int", "str", "false", "true", "empty_str", "empty_list", "float_zero")
 
 
 def _exitcode(kind):
@@ -40,6 +40,12 @@ def _exitcode(kind):
         return "fatal: something went wrong"
     if kind == "false":
         return False
+    if kind == "empty_str":
+        return ""            # sys.exit(''): prints it, exit status 1
+    if kind == "empty_list":
+        return []            # any non-int, non-None object: exit status 1
+    if kind == "float_zero":
+        return 0.0           # not an int: CPython prints it and exits with status 1
     return True
 
 
@@ -47,8 +53,8 @@ def _success(code):
     """The run ended successfully: exit status 0 (None, 0, False all mean status 0)."""
     if code is None:
         return z3.BoolVal(True)
-    if isinstance(code, str):
-        return z3.BoolVal(False)
+    if not isinstance(code, int):
+        return z3.BoolVal(False)     # str, list, float, ...: CPython prints the object and exits with status 1
     return term(code) == 0
 
 
